@@ -61,28 +61,28 @@ Definition xl_step (f : nat) (pb : bool) (st : option (byte * bytes)) (c : byte)
     end
   else
   match st with
-  | Some (d, acc) => xl_loop f (xl_is_bsl c) (Some (d, c :: acc)) r
+  | Some (d, acc) => xl_loop f (xl_esc_next pb c) (Some (d, c :: acc)) r
   | None =>
     if xl_is_operator c then
       match r with
       | d :: r' =>
-          if xl_two_char c d then xl_cons (XT XOp [c; d]) (xl_loop f (xl_is_bsl d) None r')
-          else xl_cons (XT XOp [c]) (xl_loop f (xl_is_bsl c) None r)
+          if xl_two_char c d then xl_cons (XT XOp [c; d]) (xl_loop f (xl_last_bsl pb [c; d]) None r')
+          else xl_cons (XT XOp [c]) (xl_loop f (xl_esc_next pb c) None r)
       | [] => Ok [XT XOp [c]]
       end
-    else if xl_is_punct c then xl_cons (XT XPunct [c]) (xl_loop f (xl_is_bsl c) None r)
-    else if xl_is_space c then xl_loop f (xl_is_bsl c) None r
+    else if xl_is_punct c then xl_cons (XT XPunct [c]) (xl_loop f (xl_esc_next pb c) None r)
+    else if xl_is_space c then xl_loop f (xl_esc_next pb c) None r
     else if xl_ident_start c then
       let (a, rest) := xl_span xl_ident_cont r in
-      xl_cons (XT XName (c :: a)) (xl_loop f (xl_last_bsl false (c :: a)) None rest)
+      xl_cons (XT XName (c :: a)) (xl_loop f (xl_last_bsl pb (c :: a)) None rest)
     else if xl_is_digit c then
       let (v, rest) := xl_number false (c :: r) in
-      xl_cons (XT XNumber v) (xl_loop f (xl_last_bsl false v) None rest)
+      xl_cons (XT XNumber v) (xl_loop f (xl_last_bsl pb v) None rest)
     else if cc_number_minus && Byte.eqb c XMINUS &&
             match r with d :: _ => xl_is_digit d | [] => false end then
       let (v, rest) := xl_number true r in
-      xl_cons (XT XNumber v) (xl_loop f (xl_last_bsl false v) None rest)
-    else xl_loop f (xl_is_bsl c) None r
+      xl_cons (XT XNumber v) (xl_loop f (xl_last_bsl pb v) None rest)
+    else xl_loop f (xl_esc_next pb c) None r
   end.
 
 Lemma xl_loop_S f pb st c r : xl_loop (S f) pb st (c :: r) = xl_step f pb st c r.
@@ -90,6 +90,9 @@ Proof. reflexivity. Qed.
 Lemma xl_loop_nil f pb st : xl_loop (S f) pb st [] = Ok [].
 Proof. reflexivity. Qed.
 Global Opaque xl_loop.
+
+Lemma esc_next_plain pb c : xl_is_bsl c = false -> xl_esc_next pb c = false.
+Proof. intro H. unfold xl_esc_next. rewrite H. reflexivity. Qed.
 
 (* ---- spans ---- *)
 Definition stops (p : byte -> bool) (rest : bytes) : Prop :=
@@ -114,7 +117,7 @@ Proof.
   assert (G : forall pb, pb = false -> forallb (fun c => negb (xl_is_bsl c)) v = true -> xl_last_bsl pb v = false).
   { induction v as [|c v IH]; intros pb Hpb Hv; [exact Hpb|].
     cbn [forallb] in Hv. apply andb_true_iff in Hv. destruct Hv as [Hc Hv].
-    cbn [xl_last_bsl]. apply IH; [|exact Hv]. apply negb_true_iff in Hc. exact Hc. }
+    cbn [xl_last_bsl]. apply IH; [|exact Hv]. apply negb_true_iff in Hc. apply esc_next_plain, Hc. }
   apply G. reflexivity.
 Qed.
 
@@ -131,7 +134,7 @@ Proof.
   induction w as [|c w IH]; intros f rest Hw; [reflexivity|].
   cbn [forallb] in Hw. apply andb_true_iff in Hw. destruct Hw as [Hc Hw].
   destruct (cc_space c Hc) as (Hq & Ho & Hp & Hb & _).
-  cbn [length app Nat.add]. rewrite xl_loop_S. unfold xl_step. rewrite Hq. cbn [andb]. rewrite Ho, Hp, Hc, Hb.
+  cbn [length app Nat.add]. rewrite xl_loop_S. unfold xl_step. rewrite Hq. cbn [andb]. rewrite Ho, Hp, Hc, (esc_next_plain _ _ Hb).
   apply IH, Hw.
 Qed.
 
@@ -172,21 +175,22 @@ Proof.
   rewrite xl_loop_S. unfold xl_step. rewrite Hq. cbn [andb]. rewrite Hc.
   destruct rest as [|d r].
   - destruct f as [|f]; [lia|]. rewrite xl_loop_nil. reflexivity.
-  - cbn [stops] in Hs. rewrite Hs, Hb. reflexivity.
+  - cbn [stops] in Hs. rewrite Hs, (esc_next_plain _ _ Hb). reflexivity.
 Qed.
 
 Lemma lex_op2 c d f rest : xl_is_operator c = true -> xl_two_char c d = true ->
   xl_loop (S f) false None (c :: d :: rest) = xl_cons (XT XOp [c; d]) (xl_loop f false None rest).
 Proof.
   intros Hc Hd. destruct (cc_operator c Hc) as [Hq Hb].
-  rewrite xl_loop_S. unfold xl_step. rewrite Hq. cbn [andb]. rewrite Hc, Hd, (cc_two_char c d Hd). reflexivity.
+  rewrite xl_loop_S. unfold xl_step. rewrite Hq. cbn [andb]. rewrite Hc, Hd. cbn [xl_last_bsl].
+  rewrite (esc_next_plain _ _ Hb), (esc_next_plain _ _ (cc_two_char c d Hd)). reflexivity.
 Qed.
 
 Lemma lex_punct c f rest : xl_is_punct c = true ->
   xl_loop (S f) false None (c :: rest) = xl_cons (XT XPunct [c]) (xl_loop f false None rest).
 Proof.
   intros Hc. destruct (cc_punct c Hc) as (Hq & Ho & Hb).
-  rewrite xl_loop_S. unfold xl_step. rewrite Hq. cbn [andb]. rewrite Ho, Hc, Hb. reflexivity.
+  rewrite xl_loop_S. unfold xl_step. rewrite Hq. cbn [andb]. rewrite Ho, Hc, (esc_next_plain _ _ Hb). reflexivity.
 Qed.
 
 Lemma lex_in_string q f rest : xl_is_quote q = true -> forall v acc pb, pp_raw_ok q pb v = true ->
@@ -204,8 +208,8 @@ Proof.
       destruct (Byte.eqb c q) eqn:Ecq2; [discriminate Hc|].
       assert (Hb : xl_is_bsl c = false).
       { unfold xl_is_quote in Ecq. apply orb_true_iff in Ecq. destruct Ecq as [H|H]; apply byte_eqb_eq in H; subst; reflexivity. }
-      rewrite Hb in Hv. etransitivity; [apply (IH (c :: acc) false Hv)|]. cbn [rev]. rewrite <- app_assoc. reflexivity.
-    + etransitivity; [apply (IH (c :: acc) (xl_is_bsl c) Hv)|]. cbn [rev]. rewrite <- app_assoc. reflexivity.
+      rewrite (esc_next_plain _ _ Hb) in Hv. etransitivity; [apply (IH (c :: acc) false Hv)|]. cbn [rev]. rewrite <- app_assoc. reflexivity.
+    + etransitivity; [apply (IH (c :: acc) (xl_esc_next pb c) Hv)|]. cbn [rev]. rewrite <- app_assoc. reflexivity.
 Qed.
 
 Lemma lex_string q v f rest : xl_is_quote q = true -> pp_raw_ok q false v = true ->
